@@ -424,20 +424,27 @@ impl Context<'_> {
             .await?;
         self.charge(ids.len())?;
 
-        if !self.is_historical() {
-            return Ok(ids);
-        }
-        // At a coordinate the index could not narrow, so the slot is matched
-        // against the historical rows.
+        // An id the index returns is not yet an element this caller may see:
+        // `load` is where the read decision is applied, so every id goes
+        // through it, now as well as at a coordinate. (Returning the index ids
+        // as they were listed a Proposition the caller may not read in
+        // `BELIEF SLOT`, and made it a rival in `BELIEF`.)
+        let historical = self.is_historical();
         let mut slot = Vec::new();
         for id in ids {
-            if let Some(Element::Proposition(row)) = self.load(id).await?
-                && row.state == "active"
-                && row.subject_key == subject_key
-                && row.predicate_ref == predicate_ref
+            let Some(Element::Proposition(row)) = self.load(id).await? else {
+                continue;
+            };
+            // At a coordinate the index could not narrow, so the slot is
+            // matched against the historical rows.
+            if historical
+                && (row.state != "active"
+                    || row.subject_key != subject_key
+                    || row.predicate_ref != predicate_ref)
             {
-                slot.push(id);
+                continue;
             }
+            slot.push(id);
         }
         Ok(slot)
     }
